@@ -262,7 +262,8 @@ func (w *FileWriter) Close() error {
 	w.open = false
 	err := w.bufWriter.Flush()
 	if err != nil {
-		return fmt.Errorf("failed to flush close in file at '%s' failed with %w", w.file.Name(), err)
+		// the file handle must not outlive a failed Close
+		return errors.Join(fmt.Errorf("failed to flush close in file at '%s' failed with %w", w.file.Name(), err), w.file.Close())
 	}
 
 	// when we have previously written past the currentOffset because of seeks, we need to truncate the file again to
@@ -270,7 +271,7 @@ func (w *FileWriter) Close() error {
 	if w.largestOffset > w.currentOffset {
 		err = w.file.Truncate(int64(w.currentOffset))
 		if err != nil {
-			return fmt.Errorf("failed to truncate file at '%s' failed with %w", w.file.Name(), err)
+			return errors.Join(fmt.Errorf("failed to truncate file at '%s' failed with %w", w.file.Name(), err), w.file.Close())
 		}
 	}
 
